@@ -229,11 +229,17 @@ CLAIMS["C17"] = {
     "note": K_NOTE,
 }
 CLAIMS["C30"] = {
-    "engine": "K", "level": "model_checking",
-    "technique": "Kani/CBMC on the real lexer kernel scan_for_unescaped_delim over 4 symbolic characters",
-    "text": "PARTIAL: only the delimiter scan of string literals is claimed: for every 4-character body over {backslash, quote, letter, newline} the real "
-            "scan returns the first delimiter not escaped by a backslash. Number lexing and escape processing did not finish under CBMC and are not claimed.",
-    "note": K_NOTE,
+    "engine": "M2+K", "level": "model_checking",
+    "technique": "symbolic execution of rustc MIR (engine M2, z3) of the real Lexer::handle_num / peek_char / emit_with_skipped / TokenKind::nchars over "
+                 "symbolic characters and of the literal arms of Parser::parse_expr_term over tokens of symbolic digits (std str::parse replaced by its "
+                 "contract); Kani/CBMC on the real lexer kernel scan_for_unescaped_delim over 4 symbolic characters",
+    "text": "PARTIAL. Numbers: for every string of <= 5 (thorough 6) Unicode characters after a concrete prefix, the real number lexer emits exactly one "
+            "token whose kind (int / float), text (the digits in order with every '_' removed), span and end position equal a fold specification, without "
+            "a Rust panic; for tokens of 1..20 symbolic digits the real literal arms of parse_expr_term build Int(v) iff the spelled (possibly negated) "
+            "value lies in the i64 range, with v that value, report a diagnostic iff it does not, and hand the exact (negated) text of a float literal on. "
+            "Strings: only the delimiter scan is claimed (4-character bodies over {backslash, quote, letter, newline}). Escape processing, indentation "
+            "stripping, literal patterns and the translator's parse of float text are not claimed.",
+    "note": "bounded: characters after the literal's start <= 5/6, digits <= 20 (21 thorough); std::str::parse is trusted (contract summary). " + M2_NOTE + " " + K_NOTE,
 }
 CLAIMS["C31"] = {
     "engine": "K", "level": "model_checking",
